@@ -89,6 +89,29 @@ class Ctx:
     def note(self, text):
         self.notes.append(text)
 
+    def reconcile(self, rules, pred, witness, label, where=""):
+        """Several structural rules about one function, one witness evaluation of that function.
+
+        witness = (n, diffs, unsupported).  Differences are violations (reported on the first rule).  If the evaluation was possible and
+        agrees with the property on every row, structural VIOLATIONS on constructs selected by `pred` mean "shape not recognised": they are
+        turned into discharged obligations that say so.  If the evaluation was not possible the structural verdicts stand."""
+        n, diffs, unsupported = witness
+        if diffs:
+            for d in diffs[:4]:
+                rules[0].violation(f"{label}::witness", d, where)
+            return
+        if unsupported is not None:
+            rules[0].info(f"{label}::witnesses", f"witness evaluation not possible ({unsupported}); decided by the structural rules alone")
+            return
+        rules[0].ok(f"{label}::witnesses", f"{n} evaluated histories agree with the property", where)
+        for r in rules:
+            for inst in r.instances:
+                if inst["verdict"] == "VIOLATION" and pred(inst["construct"]):
+                    inst["verdict"] = "ok"
+                    inst["detail"] = f"code shape not recognised by the structural rule ({inst['detail'][:90]}...); decided by the {n} witness evaluations of {label}"
+                    r.discharged += 1
+                    self.findings = [f for f in self.findings if not (f.rule == r.id and f.construct == inst["construct"])]
+
     def structural_or_witness(self, r, structural_fn, witness_fn, label, both=False):
         """Run a structural rule; if it does not recognise the code, let branch-covering witness evaluation decide.
 
